@@ -18,6 +18,16 @@ CHECKS = {
    text="Theorems: max_principle (every real-node value of every solution of a transient step lies between min and max of previous values, prescribed wall temperatures and fluid temperatures; any dt > 0, any grid, 1D/2D/3D, any film number >= 0), max_principle_history (induction over steps and sub-steps), uniform_stays_uniform (+ uniform_solves), nonneg_flux_no_cooling, step_unique. Tied to srlife by comparing the captured (matrix, rhs) of the real solve_step with the model rows, checking that the solver's Jacobian is the derivative of its residual, and by evaluating the bounds on real solves with steps up to 2^20 x the base step.",
    note="Trusted: Lean kernel + Mathlib (propext/Classical.choice/Quot.sound); harness capture at spsolve; rounding (bounds checked with an amplification-aware slack); hypothesis WeightsNonneg (dr <= 2 r_inner, c >= 0) — its failure is known finding F17.",
    design="4/C06"),
+ "C12": dict(
+   technique="Lean 4 proof (conjugation of the step system by the ring rotation, lifting of solutions across dimensions, linearity; with uniqueness from the maximum principle) + correspondence of the step system + metamorphic real solves",
+   text="Theorems: shift_equivariance for any number of cells (rotated data => rotated solution, lagged coefficients included), shift_equivariance_unique, axisym_2d_is_1d, uniform_3d_is_2d, superposition (linearity in source, previous temperatures, wall and fluid data). Tied to srlife by the captured-system correspondence (2D/3D biased) and by running the real solver on rotated data for every shift, on 1D/2D/3D versions of symmetric data, and on sums of data sets.",
+   note="Trusted: Lean kernel + Mathlib (propext/Classical.choice/Quot.sound); harness capture at spsolve; real solves compared at 2e-6 relative (Newton tolerance); BC grid = tube grid so that rotating data is exact (unequal grids are C19's interpolation).",
+   design="4/C12"),
+ "C13": dict(
+   technique="Lean 4 proof (constant face flux and discrete log profile of the steady 1D system, wall closed forms, non-expansiveness of the transient step towards a steady state) + correspondence + exhaustive pairing sweep on real solves",
+   text="Theorems: steady_flux_constant, steady_profile (T_i = T_1 + Phi * sum 1/r_{m+1/2}, the midpoint-rule image of the logarithmic profile), steady_fixed_fixed, steady_flux_outer, steady_conv_inner, transient_nonexpansive. Tied to srlife by the captured-system correspondence in steady and transient mode including consistency of the solver's Jacobian with its residual for every wall kind; all 20 inner x outer kind pairings are run on the real solver (accepted on their wall), the 16 well-posed ones against the exact logarithmic profile at two resolutions (observed order >= 1.8, second order for fixed/fixed), and long transients against the steady-mode solution.",
+   note="Trusted: Lean kernel + Mathlib; harness; the O(dr^2)/O(dr) closeness of the discrete profile to ln r is measured on real solves, not proved (stated as stretch in DESIGN).",
+   design="4/C13"),
 }
 PENDING_REASON = "check not built yet in this round (work in progress; see DESIGN.md section 4 for the planned model and theorems) — not claimed"
 
